@@ -27,10 +27,10 @@ RULE = ('Hypothesis draws a pool of 2..3 (T, v) pairs whose schema objects are s
 RULE += (' ' + "Also: ANY in the pool types, a call with the caller's own tagMap=, module-level codec tables snapshotted, empty schemaless containers of two results compared for sharing, DEFAULT members of one result read and emptied before another result is looked at. Also: a bulk run - eight threads each encoding and decoding some nine hundred distinct small values of their own (integers, bit strings, OIDs) at once, every result compared with the sequential one; half of the threaded histories run with debug logging on; the debug arm snapshots value and guiding type around every call; results of native.decode (DEFAULT members missing from the mapping) are mutated like those of the BER decoders.")
 ASSUMPTIONS = ['thread schedules are sampled (sys.setswitchinterval(1e-6)), not controlled: this sub-check can expose a race, it '
                'cannot show absence']
-SHARDS = {'quick': (16, 150), 'thorough': (16, 2500)}
+SHARDS = {'quick': (16, 120), 'thorough': (16, 2500)}
 BUDGET = {'quick': 100, 'thorough': 1500}
 MIN_NONTRIVIAL = {'quick': 300, 'thorough': 5000}
-CFG = {'long_str_pct': 0, 'max_depth': 3, 'any': True, 'real10_pct': 0, 'max_comps': 3, 'constructed_default_pct': 35}
+CFG = {'long_str_pct': 0, 'max_depth': 3, 'any': True, 'real10_pct': 0, 'max_comps': 3, 'constructed_default_pct': 35, 'many_elems_pct': 0}
 
 
 def shards(tier):
@@ -617,6 +617,9 @@ def run_shard(desc, seed, tier, col):
         for _ in range(n):
             T = gen.draw_type(d)
             pool.append([T, gen.draw_value(d, T)])
+        if d.pct(8):
+            # (a directed shape of the general generator: SET whose order depends on an alternative two CHOICE levels down)
+            pool[0] = list(gen.nested_choice_set_case(d))
         if d.pct(30):
             # a record that repeats a tag in two OPTIONAL runs separated by a mandatory member (legal: X.680 25.6), given two
             # values that use the first and the second occurrence
